@@ -371,7 +371,7 @@ _jobs0 = jobs
 
 def jobs(tier, seed):  # noqa: F811
     out = _jobs0(tier, seed)
-    L = 7 if tier == "quick" else 9
+    L = 8 if tier == "quick" else 10
     for e in SUPPORT_EXPRS:
         out.append(dict(case="support", params=dict(expr=e, L=L), hashseed=0, timeout=900))
     out.append(dict(case="support", params=dict(expr=["star", "a"], L=4, canary=True), hashseed=0))
@@ -381,7 +381,7 @@ def jobs(tier, seed):  # noqa: F811
 INFO["level_text"] += (" Additionally, for a catalogue of nested expressions over atoms (lift, from_string, from_strings, one, zero) the SUPPORT of the "
                        "automaton built by the real operations (Boolean semiring) is compared with the z3 regular expression of the same expression for ALL strings "
                        "up to L at once (symbolic string).")
-INFO["bounds"]["quick"]["support"] = f"{len(SUPPORT_EXPRS)} expressions, all strings over a,b,c up to 7"
-INFO["bounds"]["thorough"]["support"] = f"{len(SUPPORT_EXPRS)} expressions, all strings up to 9"
+INFO["bounds"]["quick"]["support"] = f"{len(SUPPORT_EXPRS)} expressions, all strings over a,b,c up to 8"
+INFO["bounds"]["thorough"]["support"] = f"{len(SUPPORT_EXPRS)} expressions, all strings up to 10"
 
 INFO["technique"] = "symbolic execution of the rational operations with z3 real weights against the operations' definitions; support of nested expressions vs z3.Re for all strings <= L (symbolic string); bounded"
